@@ -321,6 +321,17 @@ def c15_check(prop, tier, seed, replay):
                 if g >= 64:
                     part = part[:max(20, len(part) // 4)]
                 batches.append((part, g, procs))
+            # large next to small: behaviour that switches on above a size threshold (a coarser mode for "large diagrams", a
+            # cache, a pool, a parallel path) is process-wide state as soon as it is kept in a package-level variable - and no
+            # input of a few dozen edges ever writes it.  Two calls with > 400 edges (13 x 18 grid: 234 nodes, 437 edges,
+            # ~1 s alone) run next to small spline / polyline calls with long, bent edges; race detector on.
+            bn, be = K.grid(13, 18)
+            bigs = [K.case(bn, be, p4="sink", p5="splines", fixed=[6, 4], ns=2, ls=4, budgetms=0),
+                    K.case(bn, be, p4="valign", p5="ortho" if tier == "quick" else "splines", fixed=[6, 4], ns=10, ls=10, budgetms=0)]
+            if tier != "quick":
+                bigs.append(K.case(bn, be, p4="pack", p5="poly", fixed=[6, 4], ns=2, ls=4, budgetms=0))
+            bent = [c for c in sp_ok if len(c["edges"]) >= 6][:24 if tier == "quick" else 80]
+            batches.append((bigs + bent + [dict(c, p5="poly") for c in bent[:8]], 6 if tier == "quick" else 12, 8))
             # heavy calls under load: the network-simplex positioner on ~20 nodes / ~36 edges takes 0.1-0.5 s alone; 32-64 of them
             # on 2 processors take many seconds each.  What a call returns must not depend on how long it was kept waiting
             # (a wall-clock cut-off, a time-based seed, a busy-wait) - the slowest candidates of a sequential pass are used.
